@@ -68,7 +68,7 @@ def generate(rng, tier):
 def gen_bp(rng):
     regs = Regs()
     SR = rng.choice([100, 1000.0, 1e4, 2.4e9])
-    r, ops, N = rand_bp(rng, regs, SR, nseg=rng.randint(1, 12))
+    r, ops, N = rand_bp(rng, regs, SR, nseg=(rng.randint(95, 125) if rng.random() < 0.08 else rng.randint(1, 12)))
     r2 = regs.B()
     prog = ops + [("BFromJson", r, r2), ("OBDescr", r), ("OBDescr", r2), ("OBEq", r, r2), ("OBEq", r2, r),
                   ("BSetSR", r, SR), ("BSetSR", r2, SR), ("OBForge", r), ("OBForge", r2), ("OBLen", r2)]
